@@ -235,7 +235,7 @@ def bisect_rule(ctx: Ctx, method: str, list_attr: str) -> None:
     require(kappa is not None, "TaggedEvent.__lt__ is not a recognised lexicographic comparison")
     bs = [c for c in calls(f) if callee_name(ctx, f, c) in ("bisect.bisect", "bisect.bisect_right", "bisect.bisect_left")]
     b = one(bs, f"bisect call in {f.fq}")
-    lst = b.args[0]
+    lst = inline(b.args[0], f)
     require(self_attr(lst, sn) == list_attr, f"{f.fq}: bisect searches {src(lst)}, expected self.{list_attr}")
     # construction of the list
     stores = [n for n in body_walk(rt.node) if isinstance(n, ast.Assign) and len(n.targets) == 1 and self_attr(n.targets[0], rt.param_names()[0]) == list_attr]
@@ -617,7 +617,7 @@ def beat_construction(ctx: Ctx) -> None:
     ctx.expect("R-POLY", ci, "the text form is injective on the tick grid: 10^-p/2 < 1/(2*BEAT_SUBDIVISION)", ok, f"p={prec}", f"format precision {prec}: two ticks could print alike or read back as a neighbour", node=st.node if st else ci.node)
 
 
-def beatvalues_codec(ctx: Ctx) -> None:
+def beatvalues_codec(ctx: Ctx, judge_source: bool = True) -> None:
     p = ctx.p
     ci = p.cls("simfile.timing.BeatValues")
     st = ci.methods["__str__"]
@@ -665,7 +665,12 @@ def beatvalues_codec(ctx: Ctx) -> None:
             "warps": f"BeatValues.from_str({x}.get('WARPS'))", "offset": f"Decimal({x}.offset or 0)"}
     alt = dict(want)
     alt["warps"] = f"BeatValues.from_str({x}.warps)"
-    ctx.expect("R-TABLE", td, "BPMS/STOPS/DELAYS/WARPS/OFFSET reach the engine through BeatValues.from_str / Decimal of the chosen source", got in (want, alt), str(got), f"fields: {got}", node=td.node)
+    if judge_source:
+        ctx.expect("R-TABLE", td, "BPMS/STOPS/DELAYS/WARPS/OFFSET reach the engine through BeatValues.from_str / Decimal of the chosen source", got in (want, alt), str(got), f"fields: {got}", node=td.node)
+    else:
+        shape = all(k in got for k in want) and all(got[k].startswith("BeatValues.from_str(") for k in ("bpms", "stops", "delays", "warps")) and got.get("offset", "").startswith("Decimal(") \
+            and all(kk in got[k] for k, kk in (("bpms", ".bpms"), ("stops", ".stops"), ("delays", ".delays"), ("warps", "WARPS"), ("offset", ".offset")))
+        ctx.expect("R-TABLE", td, "the BPMS/STOPS/DELAYS/WARPS strings are parsed by BeatValues.from_str and OFFSET by Decimal, each from its own property", shape, str(got), f"fields: {got}", node=td.node)
 
 
 def _is_split(e: ast.expr, var: str, sep: str) -> bool:
@@ -891,3 +896,43 @@ def coalesce_coherence(ctx: Ctx) -> None:
             fs = [(ast.unparse(a), pol) for a, pol in facts(ctx, f, sts[0])]
             oke = (ast.unparse(gts[0]), True) in fs and (ast.unparse(cmp_), True) in fs
         ctx.expect("R-SINGLE", f, "an overlapping warp that ends later extends the last segment to its end", oke, "", "", node=lp)
+
+
+def queries_are_pure(ctx: Ctx, methods: Sequence[str] = ()) -> None:
+    """The query methods of TimingEngine never write engine state: an answer is a function of (argument, tag) only,
+    whatever was asked before.  Engine attributes are assigned only while the engine is built."""
+    p = ctx.p
+    ci = p.cls(f"{ENG}.TimingEngine")
+    builders = {"__init__", "_retime_events"}
+    n = 0
+    for name, m in ci.methods.items():
+        if m.parent is not None:
+            continue
+        sn = m.param_names()[0] if m.param_names() else "self"
+        writes = []
+        for node in body_walk(m.node):
+            tg = []
+            if isinstance(node, ast.Assign):
+                tg = node.targets
+            elif isinstance(node, (ast.AugAssign, ast.AnnAssign)):
+                tg = [node.target] if getattr(node, "value", True) is not None else []
+            elif isinstance(node, ast.Delete):
+                tg = node.targets
+            for t in tg:
+                root = t
+                while isinstance(root, (ast.Subscript, ast.Attribute)):
+                    root = root.value
+                if isinstance(t, (ast.Attribute, ast.Subscript)) and isinstance(root, ast.Name) and root.id == sn:
+                    writes.append(src(node, 70))
+            if isinstance(node, ast.Call) and isinstance(node.func, ast.Attribute) and node.func.attr in ("append", "extend", "insert", "pop", "clear", "update", "sort", "remove", "setdefault", "advance"):
+                root = node.func.value
+                while isinstance(root, (ast.Subscript, ast.Attribute)):
+                    root = root.value
+                if isinstance(root, ast.Name) and root.id == sn and isinstance(node.func.value, (ast.Attribute, ast.Subscript)):
+                    writes.append(src(node, 70))
+        if name in builders or (methods and name not in methods):
+            continue
+        n += 1
+        ctx.expect("R-PURE", m, f"TimingEngine.{name} does not write engine state", not writes, "",
+                   f"{'; '.join(writes)}: the answer of a later query then depends on earlier ones (e.g. a remembered index that ignores the tag)", node=m.node)
+    ctx.floor("TimingEngine query methods", n, len(methods) if methods else 5)
